@@ -175,6 +175,38 @@ pub fn gen_crash_base(seed: u64, mode: Mode) -> Plan {
     // C07: sometimes the recovered process keeps working (appends acknowledged after the crash
     // must also survive the next restart), ending without a clean close
     let mut profile = if race_mode { "crash+race" } else { "crash" };
+    if mode == Mode::C09 && rng.chance(0.45) {
+        // C09: the recovered process keeps producing and consuming (so that its durable position is in whatever
+        // form the recovered state gives it), then stops - with or without a clean close - before the verifier
+        profile = "crash+post";
+        let mut pops = vec![open(&mut ids)];
+        for _ in 0..rng.range(2, 10) {
+            let t = rng.below(n_topics as u64) as u32;
+            let op = match rng.below(10) {
+                0..=3 => OpKind::Append { inst: 0, topic: t, len: plen(&mut rng) },
+                4 => {
+                    let n = rng.range(2, 6);
+                    OpKind::BatchAppend { inst: 0, topic: t, lens: (0..n).map(|_| plen(&mut rng)).collect() }
+                }
+                5..=7 => OpKind::ReadNext { inst: 0, topic: t, checkpoint: true },
+                _ => OpKind::BatchRead { inst: 0, topic: t, max_bytes: *rng.pick(&[1u64, 300, 2000, 70_000, u64::MAX]), checkpoint: true, start: None },
+            };
+            pops.push(Op { id: ids.next(), kind: op });
+        }
+        if rng.chance(0.4) {
+            pops.push(Op { id: ids.next(), kind: OpKind::Close { inst: 0 } });
+        }
+        incarnations.push(Incarnation {
+            sched: gen_sched(&mut rng, 1),
+            clock_start_ms: clock_ms,
+            clock_delta_ms: Some(rng.range(1, 5000) as i64),
+            backend: backend.clone(),
+            phases: vec![Phase { threads: vec![pops] }],
+            faults: vec![],
+            buggify: vec![],
+            trace_io: false,
+        });
+    }
     if mode == Mode::C07 && rng.chance(0.4) {
         profile = if race_mode { "crash+post+race" } else { "crash+post" };
         let mut pops = vec![open(&mut ids)];
@@ -365,10 +397,9 @@ pub fn judge_crash(plan: &Plan, rr: &RunResult, mode: Mode) -> Vec<Finding> {
     struct TopicHist {
         // (op, idx, sig, inv step, ret step or None when in flight, thread, incarnation)
         appends: Vec<(u32, u32, Sig, u64, Option<u64>, u32, usize)>,
-        consumed: Vec<Sig>,          // entries returned by consuming reads that returned
-        inflight_read: bool,
-        only_read_next: bool,
-        consumed_since_open: usize,
+        /// consuming reads per working incarnation, in program order: (entries returned, still in flight at the
+        /// end of the incarnation, was read_next)
+        reads: BTreeMap<usize, Vec<(Vec<Sig>, bool, bool)>>,
     }
     let mut hist: BTreeMap<u32, TopicHist> = BTreeMap::new();
     let mut single_thread = true;
@@ -377,10 +408,6 @@ pub fn judge_crash(plan: &Plan, rr: &RunResult, mode: Mode) -> Vec<Finding> {
         let infos = op_infos(inc);
         if plan.incarnations[i].phases.iter().any(|p| p.threads.len() > 1) {
             single_thread = false;
-        }
-        for t in hist.values_mut() {
-            t.only_read_next = true;
-            t.consumed_since_open = 0;
         }
         for (id, info) in infos.iter() {
             let Some(op) = ops.get(id) else { continue };
@@ -407,16 +434,11 @@ pub fn judge_crash(plan: &Plan, rr: &RunResult, mode: Mode) -> Vec<Finding> {
                 }
                 OpKind::ReadNext { topic, checkpoint: true, .. } | OpKind::BatchRead { topic, checkpoint: true, start: None, .. } => {
                     let h = hist.entry(*topic).or_default();
-                    if !matches!(op.kind, OpKind::ReadNext { .. }) {
-                        h.only_read_next = false;
-                    }
+                    let is_next = matches!(op.kind, OpKind::ReadNext { .. });
                     match &info.res {
-                        Some(r) if r.k == "ok" => {
-                            h.consumed.extend(r.entries.iter().copied());
-                            h.consumed_since_open += r.entries.len();
-                        }
+                        Some(r) if r.k == "ok" => h.reads.entry(i).or_default().push((r.entries.clone(), false, is_next)),
                         Some(_) => {}
-                        None => h.inflight_read = true,
+                        None => h.reads.entry(i).or_default().push((Vec::new(), true, is_next)),
                     }
                 }
                 _ => {}
@@ -563,78 +585,137 @@ pub fn judge_crash(plan: &Plan, rr: &RunResult, mode: Mode) -> Vec<Finding> {
                         }
                     }
                     Mode::C09 => {
-                        // position of the first entry delivered after the restart
-                        let c = h.consumed.len();
-                        let log: Vec<Sig> = all.iter().filter(|a| a.4.is_some()).map(|a| a.2).collect();
-                        // consumed entries must be a prefix of the log for this reasoning (else it is a C01/C05 matter)
-                        let prefix_ok = h.consumed.iter().zip(log.iter()).all(|(x, y)| x.0 == y.0 && x.1 == y.1) && c <= log.len();
-                        if !prefix_ok {
-                            continue;
-                        }
-                        let resume = match rec.first() {
-                            None => log.len().max(c),
-                            Some(f) => match by_origin.get(&f.2).copied().filter(|i| all[*i].2 .0 == f.0 && all[*i].2 .1 == f.1) {
-                                Some(i) => {
-                                    // index among acked entries (in-flight appends sort after)
-                                    all.iter().take(i).filter(|a| a.4.is_some()).count()
-                                }
-                                None => {
-                                    out.push(Finding::new(&format!("{}.foreign", pfx), verify_idx, *id, format!("first entry after restart (len={} seq={:x}) is not an entry of this topic", f.0, f.2)));
-                                    continue;
-                                }
-                            },
+                        // The acknowledged log of the topic, and for every restart boundary the position at which
+                        // the consumer resumed: segment = the consuming reads of one working incarnation, the last
+                        // segment is the verifier's drain. Positions count acknowledged entries only (entries of
+                        // appends that were in flight at a crash may or may not be there and are skipped).
+                        let acked_idx = |s: &Sig| -> Option<Option<usize>> {
+                            // None: not an entry of this topic; Some(None): entry of an un-acknowledged append
+                            let i = by_origin.get(&s.2).copied().filter(|i| all[*i].2 .0 == s.0 && all[*i].2 .1 == s.1)?;
+                            if all[i].4.is_some() {
+                                Some(Some(all.iter().take(i).filter(|a| a.4.is_some()).count()))
+                            } else {
+                                Some(None)
+                            }
                         };
-                        let unread_exists = c < log.len();
-                        if alo == 0 {
-                            if resume < c {
-                                out.push(
-                                    Finding::new(
-                                        &format!("{}.strict_redelivery", pfx),
-                                        verify_idx,
-                                        *id,
-                                        format!("StrictlyAtOnce: {} entries had been returned by consuming reads before the crash, the consumer resumed at entry {} ({} redelivered)", c, resume, c - resume),
-                                    )
-                                    .fact("redelivered", serde_json::json!(c - resume))
-                                    .fact("inflight_read", serde_json::json!(h.inflight_read)),
-                                );
-                            } else if resume > c && !(h.inflight_read) && unread_exists {
-                                out.push(
-                                    Finding::new(
-                                        &format!("{}.strict_skip", pfx),
-                                        verify_idx,
-                                        *id,
-                                        format!("StrictlyAtOnce: consumer resumed at entry {} but only {} had been returned before the crash ({} skipped)", resume, c, resume - c),
-                                    )
-                                    .fact("skipped", serde_json::json!(resume - c)),
-                                );
-                            }
-                        } else {
-                            if resume > c && !h.inflight_read && unread_exists {
-                                out.push(
-                                    Finding::new(&format!("{}.alo_skip", pfx), verify_idx, *id, format!("AtLeastOnce: consumer resumed at entry {} but only {} had been returned ({} skipped)", resume, c, resume - c))
-                                        .fact("skipped", serde_json::json!(resume - c)),
-                                );
-                            } else if resume < c && h.only_read_next && (c - resume) as u32 > alo && h.consumed_since_open == c {
-                                out.push(
-                                    Finding::new(
-                                        &format!("{}.alo_redelivery_bound", pfx),
-                                        verify_idx,
-                                        *id,
-                                        format!("AtLeastOnce{{persist_every:{}}}: {} entries consumed with read_next, {} redelivered after the crash", alo, c, c - resume),
-                                    )
-                                    .fact("redelivered", serde_json::json!(c - resume))
-                                    .fact("persist_every", serde_json::json!(alo)),
-                                );
-                            }
+                        let n_acked = all.iter().filter(|a| a.4.is_some()).count();
+                        let acked_before = |inc: usize| all.iter().filter(|a| a.4.is_some() && a.6 < inc).count();
+                        struct Seg {
+                            inc: usize,
+                            delivered: Vec<Sig>,
+                            inflight: bool,
+                            only_next: bool,
+                            is_verify: bool,
                         }
-                        // nothing after the resume point may be missing (no skip later on)
-                        let expect_rest = &log[resume.min(log.len())..];
-                        let got_acked: Vec<&Sig> = rec.iter().filter(|r| by_origin.get(&r.2).map(|i| all[*i].4.is_some()).unwrap_or(false)).collect();
-                        if got_acked.len() < expect_rest.len() {
-                            out.push(
-                                Finding::new(&format!("{}.lost_after_resume", pfx), verify_idx, *id, format!("after resuming at {} only {} of the {} remaining acknowledged entries were delivered", resume, got_acked.len(), expect_rest.len()))
-                                    .fact("missing", serde_json::json!(expect_rest.len() - got_acked.len())),
-                            );
+                        let mut segs: Vec<Seg> = Vec::new();
+                        for (inc, reads) in h.reads.iter() {
+                            segs.push(Seg {
+                                inc: *inc,
+                                delivered: reads.iter().flat_map(|r| r.0.iter().copied()).collect(),
+                                inflight: reads.iter().any(|r| r.1),
+                                only_next: reads.iter().all(|r| r.2),
+                                is_verify: false,
+                            });
+                        }
+                        segs.push(Seg { inc: verify_idx, delivered: rec.clone(), inflight: false, only_next: true, is_verify: true });
+                        // position after the last delivered entry, as far as it is known
+                        let mut pos: usize = 0;
+                        let mut prev_inflight = false;
+                        let mut prev_only_next = true;
+                        let mut first_seg = true;
+                        'segs: for seg in segs.iter() {
+                            let mut idxs: Vec<usize> = Vec::new();
+                            for (k, e) in seg.delivered.iter().enumerate() {
+                                match acked_idx(e) {
+                                    None => {
+                                        if seg.is_verify && k == 0 {
+                                            out.push(Finding::new(&format!("{}.foreign", pfx), verify_idx, *id, format!("first entry after restart (len={} seq={:x}) is not an entry of this topic", e.0, e.2)));
+                                        }
+                                        // not attributable: a C01 matter, this topic is not judged further
+                                        break 'segs;
+                                    }
+                                    Some(None) => {}
+                                    Some(Some(i)) => idxs.push(i),
+                                }
+                            }
+                            let restarted = !first_seg || seg.inc > 0;
+                            first_seg = false;
+                            if idxs.is_empty() && !seg.is_verify {
+                                // nothing delivered in this incarnation: the boundary is judged at the next segment
+                                prev_inflight |= seg.inflight;
+                                prev_only_next &= seg.only_next;
+                                continue;
+                            }
+                            let c = pos;
+                            let resume = match idxs.first() {
+                                Some(i) => *i,
+                                None => n_acked.max(c),
+                            };
+                            if restarted {
+                                let unread_exists = c < if seg.is_verify { n_acked } else { acked_before(seg.inc) };
+                                let where_ = if seg.is_verify { "the verifying incarnation".to_string() } else { format!("incarnation {}", seg.inc) };
+                                if alo == 0 {
+                                    if resume < c {
+                                        out.push(
+                                            Finding::new(
+                                                &format!("{}.strict_redelivery", pfx),
+                                                seg.inc,
+                                                *id,
+                                                format!("StrictlyAtOnce: {} entries had been returned by consuming reads before the restart, the consumer resumed at entry {} in {} ({} redelivered)", c, resume, where_, c - resume),
+                                            )
+                                            .fact("redelivered", serde_json::json!(c - resume))
+                                            .fact("inflight_read", serde_json::json!(prev_inflight)),
+                                        );
+                                    } else if resume > c && !prev_inflight && unread_exists {
+                                        out.push(
+                                            Finding::new(
+                                                &format!("{}.strict_skip", pfx),
+                                                seg.inc,
+                                                *id,
+                                                format!("StrictlyAtOnce: consumer resumed at entry {} in {} but only {} had been returned before the restart ({} skipped)", resume, where_, c, resume - c),
+                                            )
+                                            .fact("skipped", serde_json::json!(resume - c)),
+                                        );
+                                    }
+                                } else if resume > c && !prev_inflight && unread_exists {
+                                    out.push(
+                                        Finding::new(&format!("{}.alo_skip", pfx), seg.inc, *id, format!("AtLeastOnce: consumer resumed at entry {} in {} but only {} had been returned ({} skipped)", resume, where_, c, resume - c))
+                                            .fact("skipped", serde_json::json!(resume - c)),
+                                    );
+                                } else if resume < c && prev_only_next && (c - resume) as u32 > alo {
+                                    out.push(
+                                        Finding::new(
+                                            &format!("{}.alo_redelivery_bound", pfx),
+                                            seg.inc,
+                                            *id,
+                                            format!("AtLeastOnce{{persist_every:{}}}: consumption before the restart was by read_next only and had reached entry {}, the consumer resumed at entry {} in {} ({} redelivered)", alo, c, resume, where_, c - resume),
+                                        )
+                                        .fact("redelivered", serde_json::json!(c - resume))
+                                        .fact("persist_every", serde_json::json!(alo)),
+                                    );
+                                }
+                            } else if resume != c {
+                                // the very first consumption does not start at the first entry: a C01 matter
+                                break 'segs;
+                            }
+                            if seg.is_verify {
+                                // nothing after the resume point may be missing (no skip later on)
+                                let expect_rest = n_acked.saturating_sub(resume.min(n_acked));
+                                if idxs.len() < expect_rest {
+                                    out.push(
+                                        Finding::new(&format!("{}.lost_after_resume", pfx), verify_idx, *id, format!("after resuming at {} only {} of the {} remaining acknowledged entries were delivered", resume, idxs.len(), expect_rest))
+                                            .fact("missing", serde_json::json!(expect_rest - idxs.len())),
+                                    );
+                                }
+                            } else {
+                                // deliveries within one incarnation must be contiguous, else the position is unknown (C01 matter)
+                                if idxs.iter().enumerate().any(|(k, i)| *i != resume + k) {
+                                    break 'segs;
+                                }
+                                pos = resume + idxs.len();
+                                prev_inflight = seg.inflight;
+                                prev_only_next = seg.only_next;
+                            }
                         }
                     }
                 }
